@@ -1,7 +1,7 @@
 (* C07/Properties.v — property theorems only.  Model: C07/Model.v (the code after fix commits
    e89b171, 07b228c; with the known finding F-C07a, whose fix 311264d was reverted by 0819a3f). *)
 From Coq Require Import String Lia.
-From RM Require Import C06.Model C06.Proofs C06.Proofs5 C06.Driver C07.Model C07.Proofs C07.Proofs2 C07.Proofs3 C07.Proofs4 C07.Text C07.Proofs5 C07.Walker C07.Proofs6 C07.Proofs7 C07.Proofs11 C07.Proofs13 C07.Proofs8 C07.Proofs9 C07.Proofs10 C07.Proofs12 Gen.C07WinEval C07.Source C07.Proofs14 C07.Proofs15.
+From RM Require Import C06.Model C06.Proofs C06.Proofs5 C06.Driver C07.Model C07.Proofs C07.Proofs2 C07.Proofs3 C07.Proofs4 C07.Text C07.Proofs5 C07.Walker C07.Proofs6 C07.Proofs7 C07.Proofs11 C07.Proofs13 C07.Proofs8 C07.Proofs9 C07.Proofs10 C07.Proofs12 Gen.C07WinEval C07.Source C07.Proofs14 C07.Proofs15 C07.Proofs16 Gen.C07WinLine C07.Proofs17.
 From RM Require C09.Grammar.
 From RM Require C08.Model C08.Proofs.
 Open Scope Z_scope.
@@ -562,3 +562,83 @@ Example c07_nonvacuous_src_doc_example :
   | _ => False
   end.
 Proof. vm_compute. repeat split; reflexivity. Qed.
+
+(* ---- round 5: the caller state after a STACK WIN walk through the real x86 CfiStackWalker, EXACTLY — validity set
+   and register values, both directions, no hypothesis about F-C07a.  c07_only_six_and_no_forwarding states the
+   property under `Known_C07a = false`; this is the full account of the faithful model: a register is valid in the
+   caller iff the record's program defined it (one of the six) OR it was forwarded by from_ctx_and_args (callee-saved
+   ebp / ebx / edi / esi, valid in the callee) — the second disjunct, for a register the record does not set, is
+   precisely the known finding.  Values: what the program assigned; every other register keeps the callee's value. ---- *)
+Theorem c07_real_framedata_exact :
+  forall p E i e ctx valid s' m,
+    walk_win_framedata (real_ops x86) p E i e (real_init x86 ctx valid) = Ret (s', true) ->
+    win_final_vars p E i e = Ret (Some m) ->
+    forall n,
+      r_valid s' n = (mem_b n six && is_set n m) ||
+                     (mem_b n (a_saved x86) && match valid with None => true | Some which => mem_b n which end) /\
+      r_ctx s' n = (if mem_b n six
+                    then match vget (dollar n) m with Some v => v | None => r_ctx (real_init x86 ctx valid) n end
+                    else r_ctx (real_init x86 ctx valid) n).
+Proof. exact real_framedata_exact. Qed.
+Print Assumptions c07_real_framedata_exact.
+
+(* FPO: valid in the caller = eip, esp, ebp, ebx when passed through (no base pointer allocated and the callee has
+   it), or forwarded *)
+Theorem c07_real_fpo_exact :
+  forall E i abp ctx valid s',
+    walk_win_fpo (real_ops x86) E i abp (real_init x86 ctx valid) = (s', true) ->
+    forall n, r_valid s' n = fpo_sets E abp n ||
+                             (mem_b n (a_saved x86) && match valid with None => true | Some which => mem_b n which end).
+Proof. exact real_fpo_exact. Qed.
+Print Assumptions c07_real_fpo_exact.
+
+(* Which record SymbolFile::walk_frame uses: a frame-data record covering the address is used whatever the FPO table
+   holds; otherwise the FPO record covering it; STACK CFI is consulted exactly when no STACK WIN record applied or the
+   one that applied failed, and then continues from the walker state the failed attempt left.  (The order is pinned
+   in mod.rs by translate/c07_win_eval.py; c07_source_is_model carries this to the compiled functions.) *)
+Theorem c07_record_preference :
+  forall S (ops : wops S) p E f s fd fp,
+    win_table (sf_framedata f) = Ret fd -> win_table (sf_fpo f) = Ret fp ->
+    (forall i e, C08.Model.rm_get fd (e_instr E) = Some i -> w_thing i = ProgramString e ->
+       walk_frame ops p E f s =
+       (do wr <- walk_win_framedata ops p E i e s;
+        if snd wr then Ret (Some (fst wr)) else cfi_fallback ops p E f (fst wr))) /\
+    (forall i b, C08.Model.rm_get fd (e_instr E) = None -> C08.Model.rm_get fp (e_instr E) = Some i ->
+       w_thing i = AllocatesBasePointer b ->
+       walk_frame ops p E f s =
+       (let wr := walk_win_fpo ops E i b s in
+        if snd wr then Ret (Some (fst wr)) else cfi_fallback ops p E f (fst wr))) /\
+    (C08.Model.rm_get fd (e_instr E) = None -> C08.Model.rm_get fp (e_instr E) = None ->
+       walk_frame ops p E f s = cfi_fallback ops p E f s).
+Proof. exact record_preference. Qed.
+Print Assumptions c07_record_preference.
+
+(* stack_win_line as extracted from parser.rs by translate/c07_win_line.py (the order and kind of the fields nom reads,
+   type / has_program_string consistency, ProgramString vs AllocatesBasePointer(rest == "1"), which parsed field fills
+   which StackInfoWin field, FrameData / Fpo / Unhandled by type): it is this directory's record constructor, its
+   field kinds are the ones C09's byte-level recogniser p_stack_win reads in that order, and C09's record for a line
+   is the one the extracted function builds. *)
+Theorem c07_line_source :
+  (forall ty a sz pro epi par sav loc mx hp rest,
+     g_stack_win_line ty a sz pro epi par sav loc mx hp rest = stack_win_line ty a sz pro epi par sav loc mx hp rest) /\
+  map snd g_line_fields = grammar_field_kinds /\
+  (forall ty a sz pro epi par sav loc mx hp rest,
+     counts_pos rest ->
+     conv_frame_type (C09.Grammar.win_of_fields ty a sz pro epi par sav loc mx hp rest) =
+     g_stack_win_line ty a sz pro epi par sav loc mx hp (unrle rest)).
+Proof. exact (conj g_stack_win_line_eq (conj g_line_fields_kinds g_line_agrees_with_grammar)). Qed.
+Print Assumptions c07_line_source.
+
+Example c07_nonvacuous_preference :
+  (* both tables hold a record covering address 100: the frame-data one is used *)
+  let e := bs "$eip 4096 = $esp 9 =" in
+  let f := mkSym [mkWin 96 16 0 0 0 0 0 0 (ProgramString e)] [mkWin 100 16 0 0 0 0 0 0 (AllocatesBasePointer false)] None in
+  match win_table (sf_framedata f), win_table (sf_fpo f) with
+  | Ret fd, Ret fp =>
+      match C08.Model.rm_get fd 100, C08.Model.rm_get fp 100 with
+      | Some i, Some j => w_thing i = ProgramString e /\ w_thing j = AllocatesBasePointer false
+      | _, _ => False
+      end
+  | _, _ => False
+  end.
+Proof. vm_compute. split; reflexivity. Qed.
